@@ -473,6 +473,7 @@ class Real(object):
         self.b.conf.supybot.followIdentificationThroughNickChanges.setValue(False)
         import supybot.ircdb as ircdb
         self.ircdb = ircdb
+        self.wire = []
         self.logged = []
         self.b.log.exception = lambda *a, **k: self.logged.append(a)
         self.b.log.error = lambda *a, **k: None
@@ -491,37 +492,58 @@ class Real(object):
             u.auth.append((time.time(), mask))
             db.setUser(u)
     def make(self, pfx, cmd, args, raw=False, tag=None):
+        """the IrcMsg the bot gets.  raw: built from its parts.  Otherwise the server's message is written as a line and
+        parsed by the code under test, as a driver does; whatever the parser makes of it is what the bot gets, and a parse
+        that does not give back prefix / command / arguments / tag is recorded in self.wire (an implementation failure,
+        judged by the caller).  Returns None when no message could be built at all."""
         M = self.b.ircmsgs.IrcMsg
         tags = {} if tag is None else {'batch': tag}
+        try:
+            m = M(prefix=pfx, command=cmd, args=tuple(args), server_tags=tags)
+        except Exception as e:
+            self.wire.append('IrcMsg(prefix=%r, command=%r, args=%r) raised %s: %s' % (pfx, cmd, list(args), type(e).__name__, e))
+            return None
         if raw:
-            return M(prefix=pfx, command=cmd, args=tuple(args), server_tags=tags)
-        m = M(prefix=pfx, command=cmd, args=tuple(args), server_tags=tags)
-        m2 = M(str(m))        # what the driver would parse from the wire
+            return m
+        try:
+            line = str(m)
+            m2 = M(line)        # what the driver would parse from the wire
+        except Exception as e:
+            self.wire.append('the line of %r could not be written / parsed: %s: %s' % ((pfx, cmd, list(args)), type(e).__name__, e))
+            return None
         if dict(m2.server_tags) != tags:
-            raise RuntimeError('batch tag does not survive serialisation: %r' % (tags,))
+            self.wire.append('line %r: tags parsed as %r, sent %r' % (line, dict(m2.server_tags), tags))
         if (m2.prefix, m2.command, tuple(m2.args)) != (pfx, cmd, tuple(args)):
-            raise RuntimeError('reference server emitted an unserialisable message %r' % ((pfx, cmd, args),))
+            self.wire.append('line %r parsed as prefix=%r command=%r args=%r, the server sent prefix=%r command=%r args=%r' %
+                             (line, m2.prefix, m2.command, list(m2.args), pfx, cmd, list(args)))
         return m2
     def feed(self, ev, raw=False):
-        """returns (exception level observed: ok / irc-exc / state-exc, what the bot handed to the driver)"""
+        """returns (exception level observed: ok / irc-exc / state-exc / escaped:<type>, what the bot handed to the driver);
+        parser trouble is left in self.wire"""
         if ev[0] == 'R':
             self.reset(); return 'ok', []
         del self.logged[:]
-        if ev[0] == 'T':
-            self.irc.feedMsg(self.make(ev[2], ev[3], ev[4], raw=raw, tag=ev[1]))
-        else:
-            self.irc.feedMsg(self.make(ev[1], ev[2], ev[3], raw=raw))
+        escaped = None
+        m = self.make(ev[2], ev[3], ev[4], raw=raw, tag=ev[1]) if ev[0] == 'T' else self.make(ev[1], ev[2], ev[3], raw=raw)
+        if m is not None:
+            try:
+                self.irc.feedMsg(m)
+            except Exception as e:      # feedMsg is firewalled: nothing may come out of it
+                escaped = 'escaped:' + type(e).__name__
+                self.wire.append('feedMsg let %s escape: %s' % (type(e).__name__, e))
         sent = []
         for _ in range(50):
-            m = self.irc.takeMsg()
-            if m is None: break
-            sent.append((m.command, list(m.args)))
+            o = self.irc.takeMsg()
+            if o is None: break
+            sent.append((o.command, list(o.args)))
         lvl = 'ok'
         for a in self.logged:
             s = (a[0] % a[1:]) if len(a) > 1 else str(a[0])
             if '005 converter' in s: continue        # a failing converter is logged and the token skipped (modelled)
             if 'IrcState' in s: lvl = 'state-exc'
             elif lvl == 'ok': lvl = 'irc-exc'
+        if m is None: lvl = 'no-msg'
+        if escaped: lvl = escaped
         return lvl, sent
     def state(self):
         irc = self.irc; st = irc.state
@@ -914,6 +936,7 @@ def run_history(real, cfg, script, check=True):
         if what == 'act':
             evs = S.step(x)
             dumps = []; sent_all = []
+            del real.wire[:]
             for ev in evs:
                 _, sent = real.feed(ev)
                 sent_all += sent
@@ -930,6 +953,9 @@ def run_history(real, cfg, script, check=True):
                 gaps = S.spec_gaps()
                 if gaps:
                     d = d + ['quiescence: ' + g for g in gaps]; modes_only = False
+                if real.wire:
+                    # what the server sent did not reach the bot as sent (parser / constructor / firewall of the code under test)
+                    d = ['wire: ' + w for w in real.wire[:2]] + d; modes_only = False
                 if d:
                     fails.append((idx, d, modes_only))
         else:
@@ -1056,7 +1082,18 @@ def shrink(real, cfg, script, pred):
     return cur
 
 def make_case(real, cfg, script, kind, do_shrink=True):
-    impl, fails, tags, nmsgs = run_history(real, cfg, script)
+    try:
+        impl, fails, tags, nmsgs = run_history(real, cfg, script)
+    except wire.DriverError:
+        raise
+    except Exception as e:
+        # nothing the code under test does may crash the harness: an exception while feeding it or reading its state is a failure of the implementation
+        import traceback
+        c = Case({'cfg': cfg, 'script': script, 'kind': kind}, impl=None, kind=kind, tags=())
+        c.oracle_ok = False; c.finding = None
+        c.oracle_msg = 'while this history ran, %s: %s came out of the implementation / could not be read from its state (%s)' % (
+            type(e).__name__, e, traceback.format_exc().strip().split('\n')[-3].strip())
+        return c
     inp = {'cfg': cfg, 'script': script, 'kind': kind}
     c = Case(inp, impl='\n'.join(impl), kind=kind, tags=sorted(tags) if nmsgs else ())
     if fails:
